@@ -6,6 +6,7 @@ Outputs are byte lists (the Rust `String` results are always ASCII-only for thes
 functions: every byte ≥ 0x80 is escaped, so "bytes" and "chars" coincide on the output side).
 Core only (no Std / Mathlib imports) so that the line-protocol driver links.
 -/
+import DarkluaModel.C13.Ieee
 namespace DarkluaModel.C13
 
 /-! ## character classes (`u8::is_ascii_graphic`, `u8::is_ascii_digit`) -/
@@ -201,5 +202,298 @@ def nestedOpen51 (v : List UInt8) : Bool :=
 /-- the literal written for `v` stays inside what Lua 5.1 reads back as `v` -/
 def lua51Safe (v : List UInt8) : Bool :=
   !hasUnicodeEscape v && !straddles v && !nestedOpen51 v
+
+/-! # numbers -/
+
+def strBytes (s : String) : List UInt8 := s.toUTF8.toList
+
+/-- `format!("{}", n)` for a signed integer -/
+def fmtInt (n : Int) : List UInt8 :=
+  if n < 0 then 45 :: strBytes (toString n.natAbs) else strBytes (toString n.natAbs)
+
+/-- `format!("{:b}", n)` -/
+def fmtBin (n : Nat) : List UInt8 :=
+  if _h : n < 2 then [UInt8.ofNat (48 + n)] else fmtBin (n / 2) ++ [UInt8.ofNat (48 + n % 2)]
+termination_by n
+decreasing_by omega
+
+/-- The floating-point operations `write_number` and `FromStr` rely on (Rust `core`/`std`):
+everything the model needs to know about `f64`. The theorems hold for every such structure
+satisfying the stated laws; `floatOps` below is the executable instance. -/
+structure NumOps (F : Type) where
+  isNaN : F → Bool
+  isInf : F → Bool
+  isZero : F → Bool
+  signNeg : F → Bool
+  /-- `float.fract() == 0.0` -/
+  fractIsZero : F → Bool
+  /-- `float / 10.0_f64.powi(exponent)` -/
+  divPow10 : F → Int → F
+  /-- `format!("{}", x)` (= `format!("{:.}", x)`) -/
+  fmt : F → List UInt8
+  /-- `format!("{:e}", x)` / `format!("{:E}", x)` (`true` = uppercase) -/
+  fmtExp : Bool → F → List UInt8
+  /-- `str::parse::<f64>().ok()` -/
+  parse : List UInt8 → Option F
+  /-- `==` on `f64` -/
+  eq : F → F → Bool
+
+/-- nodes/expressions/number.rs `NumberExpression` (tokens dropped) -/
+inductive NumLit (F : Type) where
+  | decimal (float : F) (exponent : Option (Int × Bool))
+  | hex (integer : Nat) (exponent : Option (Nat × Bool)) (isXUppercase : Bool)
+  | binary (value : Nat) (isBUppercase : Bool)
+
+/-- `i64 → i32` `TryInto` -/
+def tryIntoI32 (e : Int) : Option Int :=
+  if -2147483648 ≤ e ∧ e ≤ 2147483647 then some e else none
+
+/-- utils.rs `write_number`. -/
+def writeNumber {F : Type} (ops : NumOps F) : NumLit F → List UInt8
+  | .decimal x exponent =>
+    if ops.isNaN x then strBytes "(0/0)"
+    else if ops.isInf x then
+      strBytes "(" ++ (if ops.signNeg x then strBytes "-" else []) ++ strBytes "1/0)"
+    else
+      match (exponent.map (·.1)).bind tryIntoI32 with
+      | some e =>
+        let upper := (exponent.map (·.2)).getD false
+        let mantissa := ops.divPow10 x e
+        let formatted := ops.fmt mantissa ++ (if upper then [69] else [101]) ++ fmtInt e
+        if (ops.parse formatted).any (ops.eq · x) then formatted
+        else ops.fmtExp upper x
+      | none =>
+        if ops.fractIsZero x then ops.fmt x else ops.fmt x
+  | .hex n exponent ux =>
+    [48, if ux then 88 else 120] ++ fmtHex n ++
+      (match exponent with
+       | some (e, up) => (if up then [80] else [112]) ++ fmtInt e
+       | none => [])
+  | .binary n ub => [48, if ub then 66 else 98] ++ fmtBin n
+
+/-! ## nodes/expressions/number.rs `FromStr for NumberExpression` -/
+
+inductive NumberParsingError where
+  | invalidHexadecimalNumber | invalidHexadecimalExponent | invalidDecimalNumber
+  | invalidDecimalExponent | invalidBinaryNumber
+  deriving DecidableEq, Repr
+
+/-- `filter_underscore` -/
+def filterUnderscore (s : List UInt8) : List UInt8 := s.filter (· != 95)
+
+/-- value of a digit in `radix` (`char::to_digit`) -/
+def toDigit (radix : Nat) (c : UInt8) : Option Nat :=
+  let v := if 48 ≤ c ∧ c ≤ 57 then some (c.toNat - 48)
+    else if 97 ≤ c ∧ c ≤ 122 then some (c.toNat - 87)
+    else if 65 ≤ c ∧ c ≤ 90 then some (c.toNat - 55)
+    else none
+  v.filter (· < radix)
+
+def foldDigits (radix : Nat) : Nat → List UInt8 → Option Nat
+  | acc, [] => some acc
+  | acc, c :: cs => match toDigit radix c with
+    | some d => foldDigits radix (acc * radix + d) cs
+    | none => none
+
+/-- `uN::from_str_radix(s, radix).ok()` for an unsigned type with `max` as largest value:
+an optional `+`, at least one digit, no overflow. -/
+def parseUnsigned (radix max : Nat) (s : List UInt8) : Option Nat :=
+  let digits := match s with
+    | 43 :: rest => rest
+    | _ => s
+  if digits.isEmpty then none
+  else (foldDigits radix 0 digits).filter (· ≤ max)
+
+/-- `str::parse::<i64>().ok()`: optional sign, at least one digit, within range -/
+def parseI64 (s : List UInt8) : Option Int :=
+  let (neg, digits) := match s with
+    | 43 :: rest => (false, rest)
+    | 45 :: rest => (true, rest)
+    | _ => (false, s)
+  if digits.isEmpty then none
+  else match foldDigits 10 0 digits with
+    | none => none
+    | some n =>
+      if neg then (if n ≤ 9223372036854775808 then some (-(n : Int)) else none)
+      else (if n ≤ 9223372036854775807 then some (n : Int) else none)
+
+/-- index of the first occurrence of `c` (`str::find(char)`) -/
+def findByte (c : UInt8) (s : List UInt8) : Option Nat :=
+  let i := s.findIdx (· == c)
+  if i < s.length then some i else none
+
+/-- `value.char_indices().filter(|(_, c)| *c != '_').take(2).nth(1)` -/
+def notationPrefix (s : List UInt8) : Option (Nat × UInt8) :=
+  ((s.zipIdx.filter fun (c, _) => c != 95).drop 1).head?.map fun (c, i) => (i, c)
+
+/-- `FromStr::from_str` on ASCII text (number tokens are ASCII). -/
+def parseNumber {F : Type} (ops : NumOps F) (value : List UInt8) :
+    Except NumberParsingError (NumLit F) :=
+  let startsWithZero := value.head? == some 48
+  let hexOrBin := match notationPrefix value with
+    | some (position, notationCh) =>
+      if startsWithZero && (notationCh == 120 || notationCh == 88 || notationCh == 98 || notationCh == 66)
+      then some (position, notationCh) else none
+    | none => none
+  match hexOrBin with
+  | some (position, notationCh) =>
+    let isUppercase := notationCh == 88 || notationCh == 66
+    if notationCh == 120 || notationCh == 88 then
+      let found := match findByte 112 value with
+        | some i => some (false, i)
+        | none => (findByte 80 value).map fun i => (true, i)
+      match found with
+      | some (exponentIsUppercase, index) =>
+        match parseUnsigned 10 4294967295 (value.drop (index + 1)) with
+        | none => .error .invalidHexadecimalExponent
+        | some exponent =>
+          -- `value.get(position + 1..index).unwrap()` panics when `index < position + 1`;
+          -- that needs a `p` before the `x`, impossible since `x` is the 2nd non-`_` char after `0`
+          match parseUnsigned 16 18446744073709551615 ((value.take index).drop (position + 1)) with
+          | none => .error .invalidHexadecimalNumber
+          | some n => .ok (.hex n (some (exponent, exponentIsUppercase)) isUppercase)
+      | none =>
+        match parseUnsigned 16 18446744073709551615 (filterUnderscore (value.drop (position + 1))) with
+        | none => .error .invalidHexadecimalNumber
+        | some n => .ok (.hex n none isUppercase)
+    else
+      match parseUnsigned 2 18446744073709551615 (filterUnderscore (value.drop (position + 1))) with
+      | none => .error .invalidBinaryNumber
+      | some n => .ok (.binary n isUppercase)
+  | none =>
+    if [46, 95].isPrefixOf value then .error .invalidDecimalNumber
+    else
+      let found := match findByte 101 value with
+        | some i => some (false, i)
+        | none => (findByte 69 value).map fun i => (true, i)
+      match found with
+      | some (exponentIsUppercase, index) =>
+        if containsSub [95, 45] value || containsSub [95, 43] value then
+          .error .invalidDecimalExponent
+        else
+          match parseI64 (filterUnderscore (value.drop (index + 1))) with
+          | none => .error .invalidDecimalExponent
+          | some exponent =>
+            match ops.parse (filterUnderscore (value.take index)) with
+            | none => .error .invalidDecimalNumber
+            | some _ =>
+              match ops.parse (filterUnderscore value) with
+              | none => .error .invalidDecimalNumber
+              | some x => .ok (.decimal x (some (exponent, exponentIsUppercase)))
+      | none =>
+        match ops.parse (filterUnderscore value) with
+        | none => .error .invalidDecimalNumber
+        | some x => .ok (.decimal x none)
+
+/-! ## the executable `NumOps` instance: IEEE binary64 as bit patterns
+
+`fmt`, `fmtExp` (shortest round-tripping digits, laid out as `core::fmt::float` does) and
+`parse` (the `f64::from_str` grammar with correct rounding) are computed exactly from the bit
+pattern; `divPow10` follows compiler-rt `__powidf2` (what `f64::powi` lowers to) with hardware
+`Float` multiplication and division. -/
+
+def digitsToBytes (ds : List Nat) : List UInt8 := ds.map fun d => UInt8.ofNat (48 + d)
+
+/-- `core::fmt::float::float_to_decimal_common_shortest` with `Sign::Minus`, precision 0 -/
+def fmtBits (bits : UInt64) : List UInt8 :=
+  if Ieee.isNaNBits bits then strBytes "NaN"
+  else
+    let sign : List UInt8 := if Ieee.signBit bits then [45] else []
+    if Ieee.isInfBits bits then sign ++ strBytes "inf"
+    else if Ieee.isZeroBits bits then sign ++ [48]
+    else
+      let (ds, k) := Ieee.shortestDigits bits
+      let n := ds.length
+      if k ≤ 0 then sign ++ [48, 46] ++ List.replicate (-k).toNat 48 ++ digitsToBytes ds
+      else if k.toNat < n then
+        sign ++ digitsToBytes (ds.take k.toNat) ++ [46] ++ digitsToBytes (ds.drop k.toNat)
+      else sign ++ digitsToBytes ds ++ List.replicate (k.toNat - n) 48
+
+/-- `float_to_exponential_common_shortest` (`{:e}` / `{:E}`) -/
+def fmtExpBits (upper : Bool) (bits : UInt64) : List UInt8 :=
+  if Ieee.isNaNBits bits then strBytes "NaN"
+  else
+    let sign : List UInt8 := if Ieee.signBit bits then [45] else []
+    let e : UInt8 := if upper then 69 else 101
+    if Ieee.isInfBits bits then sign ++ strBytes "inf"
+    else if Ieee.isZeroBits bits then sign ++ [48, e, 48]
+    else
+      let (ds, k) := Ieee.shortestDigits bits
+      match digitsToBytes ds with
+      | [] => []
+      | [d] => sign ++ [d, e] ++ fmtInt (k - 1)
+      | d :: rest => sign ++ [d, 46] ++ rest ++ [e] ++ fmtInt (k - 1)
+
+def lowerByte (c : UInt8) : UInt8 := if 65 ≤ c ∧ c ≤ 90 then c + 32 else c
+
+/-- `f64::from_str` (`core::num::dec2flt`): `[+-]? (inf | infinity | nan | digits [. digits] [eE [+-] digits])`
+with at least one mantissa digit; correctly rounded. -/
+def parseBits (s : List UInt8) : Option UInt64 :=
+  let (neg, body) := match s with
+    | 43 :: rest => (false, rest)
+    | 45 :: rest => (true, rest)
+    | _ => (false, s)
+  let low := body.map lowerByte
+  if low == strBytes "inf" || low == strBytes "infinity" then
+    some (if neg then 0xfff0000000000000 else 0x7ff0000000000000)
+  else if low == strBytes "nan" then some (if neg then 0xfff8000000000000 else 0x7ff8000000000000)
+  else
+    let intDigits := body.takeWhile isAsciiDigit
+    let rest := body.drop intDigits.length
+    let (fracDigits, rest) := match rest with
+      | 46 :: r => (r.takeWhile isAsciiDigit, r.drop (r.takeWhile isAsciiDigit).length)
+      | r => ([], r)
+    if intDigits.isEmpty && fracDigits.isEmpty then none
+    else
+      let exp? : Option Int := match rest with
+        | [] => some 0
+        | c :: r =>
+          if c == 101 || c == 69 then
+            let (eneg, ed) := match r with
+              | 43 :: r' => (false, r')
+              | 45 :: r' => (true, r')
+              | _ => (false, r)
+            if ed.isEmpty || !ed.all isAsciiDigit then none
+            else
+              let n : Nat := ed.foldl (fun (acc : Nat) d => acc * 10 + (d.toNat - 48)) 0
+              some (if eneg then -(n : Int) else (n : Int))
+          else none
+      match exp? with
+      | none => none
+      | some e =>
+        let digits : Nat := (intDigits ++ fracDigits).foldl (fun (acc : Nat) d => acc * 10 + (d.toNat - 48)) 0
+        -- huge exponents cannot change the result beyond these clamps (digits has < 2^63 digits…)
+        let e10 : Int := e - (fracDigits.length : Int)
+        let mlen : Int := ((intDigits ++ fracDigits).length : Int)
+        if digits == 0 then some (if neg then 0x8000000000000000 else 0)
+        else if e10 > 400 then some (if neg then 0xfff0000000000000 else 0x7ff0000000000000)
+        else if e10 + mlen < -400 then some (if neg then 0x8000000000000000 else 0)
+        else some (Ieee.ofDecimal neg digits e10)
+
+/-- compiler-rt `__powidf2(a, b)` -/
+def powi (a : Float) (b : Int) : Float :=
+  let rec go : Nat → Nat → Float → Float → Float
+    | 0, _, _, r => r
+    | fuel + 1, n, a, r =>
+      let r := if n % 2 == 1 then r * a else r
+      let n := n / 2
+      if n == 0 then r else go fuel n (a * a) r
+  let r := go 40 b.natAbs a 1.0
+  if b < 0 then 1.0 / r else r
+
+def floatOps : NumOps UInt64 where
+  isNaN := Ieee.isNaNBits
+  isInf := Ieee.isInfBits
+  isZero := Ieee.isZeroBits
+  signNeg := Ieee.signBit
+  fractIsZero b :=
+    let (m, e) := Ieee.decode b
+    e ≥ 0 || m % 2 ^ (-e).toNat == 0
+  divPow10 b e := (Float.ofBits b / powi 10.0 e).toBits
+  fmt := fmtBits
+  fmtExp := fmtExpBits
+  parse := parseBits
+  eq a b :=
+    !Ieee.isNaNBits a && !Ieee.isNaNBits b && (a == b || (Ieee.isZeroBits a && Ieee.isZeroBits b))
 
 end DarkluaModel.C13
